@@ -71,6 +71,10 @@ impl Connector for LoadBalanceConnector {
         self.name.as_str()
     }
 
+    fn members(&self) -> &[String] {
+        &self.connectors
+    }
+
     async fn init(&mut self) -> Result<(), Error> {
         if let Algorithm::HashBy(str) = &self.algorithm {
             let value = parse(str).context("unable to compile hash script")?;
@@ -95,6 +99,21 @@ impl Connector for LoadBalanceConnector {
                 "connector not defined: {}",
                 n
             );
+        }
+        // a group must not contain itself, directly or through other groups: connect() would never return
+        let mut pending: Vec<&str> = self.connectors.iter().map(String::as_str).collect();
+        let mut seen = std::collections::HashSet::new();
+        while let Some(n) = pending.pop() {
+            ensure!(
+                n != self.name,
+                "loadbalance connector {} contains itself",
+                self.name
+            );
+            if seen.insert(n) {
+                if let Some(c) = state.connectors.get(n) {
+                    pending.extend(c.members().iter().map(String::as_str));
+                }
+            }
         }
         Ok(())
     }
